@@ -2,17 +2,23 @@
 global size_of usize == 8;   // 64-bit target (u64 offsets differences widen losslessly to usize)
 
 // ---- the oracle of C02 (from the property statement) ---------------------------------------------------------------
-// "precisely the retained messages whose offsets lie in [lo, hi], in offset order": the order-preserving filter of the log
-pub open spec fn slice_of(l: Seq<RetainedMessage>, lo: int, hi: int) -> Seq<RetainedMessage> {
-    l.filter(|m: RetainedMessage| lo <= m.offset && m.offset <= hi)
+// Same vocabulary as unit read_segment (whose proved [C02.tier] is this unit's ASSUMED contract of the segment tier):
+// "precisely the retained messages whose offsets lie in [lo, hi], in offset order" = the order-preserving filter of the log.
+pub open spec fn seq_keep(s: Seq<RetainedMessage>, f: spec_fn(RetainedMessage) -> bool) -> Seq<RetainedMessage>
+    decreases s.len(),
+{
+    if s.len() == 0 { Seq::empty() }
+    else if f(s.last()) { seq_keep(s.drop_last(), f).push(s.last()) }
+    else { seq_keep(s.drop_last(), f) }
+}
+pub open spec fn off_in(lo: int, hi: int) -> spec_fn(RetainedMessage) -> bool { |m: RetainedMessage| lo <= m.offset <= hi }
+pub open spec fn ts_ge(t: int) -> spec_fn(RetainedMessage) -> bool { |m: RetainedMessage| m.timestamp >= t }
+pub open spec fn slice_of(log: Seq<RetainedMessage>, lo: int, hi: int) -> Seq<RetainedMessage> { seq_keep(log, off_in(lo, hi)) }
+pub open spec fn take(s: Seq<RetainedMessage>, n: int) -> Seq<RetainedMessage> {
+    s.subrange(0, if n <= 0 { 0 } else if n <= s.len() { n } else { s.len() as int })
 }
 // "the first n messages whose timestamp is at least t"
-pub open spec fn from_ts(l: Seq<RetainedMessage>, t: int) -> Seq<RetainedMessage> {
-    l.filter(|m: RetainedMessage| m.timestamp >= t)
-}
-pub open spec fn take(l: Seq<RetainedMessage>, n: int) -> Seq<RetainedMessage> {
-    if n <= 0 { Seq::empty() } else if n >= l.len() { l } else { l.subrange(0, n) }
-}
+pub open spec fn ts_slice_of(log: Seq<RetainedMessage>, t: int, n: int) -> Seq<RetainedMessage> { take(seq_keep(log, ts_ge(t)), n) }
 
 // the log of a partition: the messages of its segments (wherever they live: disk batches or unsaved buffer), in segment order
 pub open spec fn log_upto(segs: Seq<Segment>, n: int) -> Seq<RetainedMessage>
@@ -49,6 +55,8 @@ pub open spec fn read_wf(p: &Partition) -> bool {
             &&& seg_all(last_seg(p)).len() > 0 ==> last_seg(p).current_offset == p.current_offset
             &&& seg_all(last_seg(p)).len() == 0 ==> last_seg(p).current_offset == last_seg(p).start_offset
         }
+    // nothing has been assigned yet: the offset counter still stands at 0 (Partition::create / purge / load)
+    &&& !p.should_increment_offset ==> p.current_offset == 0
     // A-size: offsets stay away from 2^64 by more than one request's count
     &&& p.current_offset + 1 + u32::MAX <= u64::MAX
     // the cache is a contiguous suffix of the log (property anchor `Partition.cache`)
@@ -107,14 +115,16 @@ impl Segment {
     // its `offset + (count - 1) as u64`.
     #[verifier::external_body]
     pub fn get_messages_by_offset(&self, offset: u64, count: u32) -> (r: Result<Vec<RetainedMessage>, IggyError>)
-        requires max_int(offset as int, self.start_offset as int) + count <= u64::MAX + 1,
+        requires
+            contig(seg_all(self), self.start_offset as int),
+            offset + count <= u64::MAX, self.start_offset + count <= u64::MAX,
         ensures r is Ok ==> r->Ok_0@ == slice_of(seg_all(self), max_int(offset as int, self.start_offset as int),
                                                  max_int(offset as int, self.start_offset as int) + count - 1),
     { unimplemented!() }
     // Segment::get_messages_by_timestamp: the first `count` messages of the segment with timestamp >= start_timestamp
     #[verifier::external_body]
     pub fn get_messages_by_timestamp(&self, start_timestamp: u64, count: usize) -> (r: Result<Vec<RetainedMessage>, IggyError>)
-        ensures r is Ok ==> r->Ok_0@ == take(from_ts(seg_all(self), start_timestamp as int), count as int),
+        ensures r is Ok ==> r->Ok_0@ == ts_slice_of(seg_all(self), start_timestamp as int, count as int),
     { unimplemented!() }
 }
 
